@@ -246,6 +246,16 @@ impl Property for C01 {
             }
         }
         out.extend(repo_corpus(ctx, "C01"));
+        for (i, (name, prog)) in crate::gen::scale::programs().into_iter().enumerate() {
+            if !ctx.shard_mine(i + 5) {
+                continue;
+            }
+            ctx.label("scale-program");
+            if let Err(mut v) = judge_program(&prog, ctx, true, None) {
+                v.detail = format!("[scale program {}] {}", name, v.detail);
+                out.push(v);
+            }
+        }
         out
     }
     fn judge_tape(&self, tape: &[u8], ctx: &mut Ctx) -> Judged {
